@@ -43,11 +43,15 @@ type roundCfg struct {
 	Busy                int
 	Rangers             int
 	Lockstep            bool // all goroutines meet at a spinning barrier before each operation index
+	SlowCtor            bool // the LoadOrStoreLazy constructor (user code that runs while the predecessors are locked) yields and spins
 }
 
 var clock uint64
 
 func tick() uint64 { return atomic.AddUint64(&clock, 1) }
+
+// contended keys are 1..3; the anchors surround them
+var anchorKeys = []int64{0, 7, 8}
 
 var sink uint64
 
@@ -66,6 +70,7 @@ func pickCfg(rng *vhlib.Rng, i int, hot bool) roundCfg {
 	}
 	c.Procs = []int{1, 2, 4, 16, 4, 16, 2, 16}[i%8]
 	c.Lockstep = rng.Intn(4) != 0
+	c.SlowCtor = rng.Intn(2) == 0
 	c.YieldPct = []int{0, 10, 30, 50}[rng.Intn(4)]
 	if c.Procs > 1 && rng.Intn(3) == 0 {
 		c.Busy = rng.Range(1, 4)
@@ -138,6 +143,17 @@ func waitStart(start *int32) {
 
 func mapRound(rng *vhlib.Rng, c roundCfg, variant int) (hist []rec, ranges []rec, crashed string) {
 	m, _ := newMap(variant)
+	// anchors: in rounds with a Range goroutine, keys below and above the contended ones are stored before
+	// the round starts and never removed, so they are present for the whole of every Range call
+	if c.Rangers > 0 {
+		for _, k := range anchorKeys {
+			r := rec{G: -2, Kind: oStore, K: k, V: 9000 + k, Name: "Store"}
+			r.Inv = tick()
+			m.Store(k, r.V)
+			r.Resp = tick()
+			hist = append(hist, r)
+		}
+	}
 	kinds := []int{oStore, oStore, oLoad, oLoad, oLoadOrStore, oLazy, oLoadAndDelete, oLoadAndDelete, oDelete, oDelete}
 	plans := make([][]plan, c.N)
 	for g := range plans {
@@ -155,11 +171,13 @@ func mapRound(rng *vhlib.Rng, c roundCfg, variant int) (hist []rec, ranges []rec
 	var wg sync.WaitGroup
 	steps := make([]int32, c.Ops)
 	var panicked atomic.Value
+	working := int32(c.N) // workers still running (the Range goroutines keep ranging meanwhile)
 	out := make([][]rec, c.N+c.Rangers)
 	for g := 0; g < c.N; g++ {
 		wg.Add(1)
 		go func(g int) {
 			defer wg.Done()
+			defer atomic.AddInt32(&working, -1)
 			defer notePanic(&panicked)
 			local := make([]rec, 0, c.Ops)
 			waitStart(&start)
@@ -189,7 +207,14 @@ func mapRound(rng *vhlib.Rng, c roundCfg, variant int) (hist []rec, ranges []rec
 					r.Resp = tick()
 				case oLazy:
 					calls := 0
-					f := func() int64 { calls++; return p.v }
+					f := func() int64 {
+						calls++
+						if c.SlowCtor { // holds the predecessor locks meanwhile: removers that have marked a neighbour wait
+							runtime.Gosched()
+							spinFor(3000)
+						}
+						return p.v
+					}
 					r.Inv = tick()
 					r.RV, r.RB = m.LoadOrStoreLazy(p.k, f)
 					r.Resp = tick()
@@ -215,7 +240,7 @@ func mapRound(rng *vhlib.Rng, c roundCfg, variant int) (hist []rec, ranges []rec
 			defer notePanic(&panicked)
 			var local []rec
 			waitStart(&start)
-			for i := 0; i < 3; i++ {
+			for i := 0; i < 3 || (i < 12 && atomic.LoadInt32(&working) > 0); i++ {
 				runtime.Gosched()
 				r := rec{G: c.N + q, Kind: oRange, Name: "Range"}
 				r.Inv = tick()
@@ -300,6 +325,15 @@ func rangeTerm(r rec) string {
 
 func setRound(rng *vhlib.Rng, c roundCfg, variant int) (hist []rec, ranges []rec, crashed string) {
 	s, _ := newSet(variant)
+	if c.Rangers > 0 { // anchors, see mapRound
+		for _, k := range anchorKeys {
+			r := rec{G: -2, Kind: sAddB, K: k, Name: "AddB"}
+			r.Inv = tick()
+			r.RB = s.AddB(k)
+			r.Resp = tick()
+			hist = append(hist, r)
+		}
+	}
 	kinds := []int{sAddB, sAddB, sContainsB, sContainsB, sRemoveB, sRemoveB}
 	plans := make([][]plan, c.N)
 	for g := range plans {
@@ -317,11 +351,13 @@ func setRound(rng *vhlib.Rng, c roundCfg, variant int) (hist []rec, ranges []rec
 	var wg sync.WaitGroup
 	steps := make([]int32, c.Ops)
 	var panicked atomic.Value
+	working := int32(c.N) // workers still running (the Range goroutines keep ranging meanwhile)
 	out := make([][]rec, c.N+c.Rangers)
 	for g := 0; g < c.N; g++ {
 		wg.Add(1)
 		go func(g int) {
 			defer wg.Done()
+			defer atomic.AddInt32(&working, -1)
 			defer notePanic(&panicked)
 			local := make([]rec, 0, c.Ops)
 			waitStart(&start)
@@ -362,7 +398,7 @@ func setRound(rng *vhlib.Rng, c roundCfg, variant int) (hist []rec, ranges []rec
 			defer notePanic(&panicked)
 			var local []rec
 			waitStart(&start)
-			for i := 0; i < 3; i++ {
+			for i := 0; i < 3 || (i < 12 && atomic.LoadInt32(&working) > 0); i++ {
 				runtime.Gosched()
 				r := rec{G: c.N + q, Kind: sRange, Name: "Range"}
 				r.Inv = tick()
@@ -438,7 +474,24 @@ func concSection(w *vhlib.Writer, o vhlib.Opts, rng *vhlib.Rng, rounds int, hot 
 	for i := 0; i < rounds; i++ {
 		c := pickCfg(rng, i, hot)
 		isSet := i%3 == 2
-		variant := (i / 3) % 4 // the lock-free variants; the mutex wrappers are exercised sequentially
+		variant := lockFreeVariants[(i/3)%len(lockFreeVariants)] // the mutex wrappers are exercised sequentially
+		if isSet && (i/3)%2 == 0 {
+			// the set has no user callback that runs under a lock; its only outside lever is the comparator,
+			// which a remover calls again when it has marked its victim and must repeat the search
+			variant = 10
+		}
+		if variant == 10 {
+			// slow comparator: operations overlap much more, keep the history small for lin_check
+			if c.Keys > 1 {
+				c.Keys = 3 // neighbours whose insertion/removal makes a remover's validation fail and search again
+			}
+			if c.N > 6 {
+				c.N = 6
+			}
+			if c.Ops > 6 {
+				c.Ops = 6
+			}
+		}
 		runtime.GOMAXPROCS(c.Procs)
 		stop := startBusy(c.Busy)
 		clock = 0
